@@ -1,4 +1,9 @@
 // Command pdsim is the engine binary: every property profile is registered here.
+//
+// math/rand's global source must stay seedable (rand.Seed is a no-op by default for go >= 1.24 main modules): the
+// simulator seeds it per run, and the deterministic runtime makes the unseeded source a constant.
+//
+//go:debug randseednop=0
 package main
 
 import (
